@@ -237,10 +237,29 @@ fn inner_outer(root: &Handle, st: &mut Stats) -> Result<(), String> {
             }
             // start tag: every attribute value decodes back to the original
             let start = &outer[..gt + 1];
-            let mut pos = 0;
+            // skip the tag name (it may itself contain '=' and quotes); every attribute is
+            // written as SPACE name="value"
+            let mut pos = if start[1..].starts_with(&*name.local) { 1 + name.local.len() } else { 0 };
             for a in attrs.borrow().iter() {
+                // written as SPACE [prefix:]name="value"
                 let needle = format!("{}=\"", &*a.name.local);
-                let Some(i) = start[pos..].find(&needle) else {
+                let mut from = pos;
+                let found = loop {
+                    match start[from..].find(&needle) {
+                        None => break None,
+                        Some(i) => {
+                            let at = from + i;
+                            if at > 0 && matches!(start.as_bytes()[at - 1], b' ' | b':') {
+                                break Some(at - pos);
+                            }
+                            from = at + 1;
+                            while !start.is_char_boundary(from) {
+                                from += 1;
+                            }
+                        },
+                    }
+                };
+                let Some(i) = found else {
                     return Err(format!("attribute {:?} not found in start tag {start:?}", &*a.name.local));
                 };
                 let vs = pos + i + needle.len();
